@@ -24,7 +24,7 @@ from ..common import rng_for, b2j
 
 LEVEL = "exploration"
 SHARDS = {"quick": 8, "thorough": 16}
-REQUIRED = ("definitions_probed", "cache_hits_observed", "cache_rewrites_observed", "same_length_variant_switches",
+REQUIRED = ("aba_same_process_steps", "definitions_probed", "cache_hits_observed", "cache_rewrites_observed", "same_length_variant_switches",
             "stale_pyc_situations", "orphan_pyc_situations", "seeded_foreign_cache_situations", "same_process_redefinitions",
             "bytecode_on_definitions", "bytecode_off_definitions", "earlier_classes_reprobed", "option_only_switches")
 MIN_NONTRIVIAL = 20
@@ -151,13 +151,27 @@ def run_history(run, rng, pool, scratch, hid, sources, nsteps):
         force_mtime = None
         return ok
 
+    # some histories start with an A-B-A (or A-B-A-B) pattern inside ONE process: a declaration comes back
+    # after a different same-named one has been defined in between
+    forced = []
+    if rng.random() < 0.4:
+        a = rng.choice(pool)
+        b = by_tag[a.twin] if getattr(a, "twin", None) and rng.random() < 0.6 else rng.choice([u for u in pool if u.tag != a.tag])
+        forced = [(a, False), (b, True), (a, True)] + ([(b, True)] if rng.random() < 0.4 else [])
+        nsteps = max(nsteps, len(forced) + 1)
     for s in range(nsteps):
         # choose variant: bias to twins (same-length) and option-only changes of the previous one
-        if prev is not None and getattr(prev, "twin", None) and rng.random() < 0.45:
+        if forced:
+            v, same_proc_forced = forced.pop(0)
+            if same_proc_forced:
+                run.count("aba_same_process_steps")
+        elif prev is not None and getattr(prev, "twin", None) and rng.random() < 0.45:
             v = by_tag[prev.twin]
+            same_proc_forced = None
         else:
             v = rng.choice(pool)
-        same_proc = prev is not None and rng.random() < 0.3
+            same_proc_forced = None
+        same_proc = prev is not None and (same_proc_forced if same_proc_forced is not None else rng.random() < 0.3)
         bytecode = rng.random() < 0.6
         tamper = None
         if not same_proc:
